@@ -50,7 +50,7 @@ func highcmd(w []string) bool {
 	if db == nil {
 		return false
 	}
-	hd := sqlittle.VerifWrap(db)
+	hd := wrapped(db)
 	n, limit, stopped := 0, 0, false
 	rowcb := func(r sqlittle.Row) {
 		fmt.Fprintf(out, "row %s\n", h.ShowRecord([]interface{}(r)))
@@ -577,10 +577,48 @@ func pure(w []string) bool {
 		guard("", func() { fmt.Fprintf(out, "%v\n", sdb.Equals(h.ReadKey(w[1]), h.ReadRecord(w[2]))) })
 	case w[0] == "search" && len(w) == 3:
 		guard("", func() { fmt.Fprintf(out, "%v\n", sdb.Search(h.ReadKey(w[1]), h.ReadRecord(w[2]))) })
+	case (w[0] == "equalsr" || w[0] == "searchr") && len(w) == 3:
+		// the same db.Key object is used again when the next key has its shape (columns, collations, directions): only
+		// the values are assigned, the way a caller that loops over lookups - or setKey() in the library - reuses a key
+		guard("", func() {
+			k := h.ReadKey(w[1])
+			same := len(k) == len(reuseKey)
+			for i := 0; same && i < len(k); i++ {
+				same = k[i].Collate == reuseKey[i].Collate && k[i].Desc == reuseKey[i].Desc
+			}
+			if same {
+				for i := range k {
+					reuseKey[i].V = k[i].V
+				}
+			} else {
+				reuseKey = k
+			}
+			if w[0] == "equalsr" {
+				fmt.Fprintf(out, "%v\n", sdb.Equals(reuseKey, h.ReadRecord(w[2])))
+			} else {
+				fmt.Fprintf(out, "%v\n", sdb.Search(reuseKey, h.ReadRecord(w[2])))
+			}
+		})
 	default:
 		return false
 	}
 	return true
+}
+
+var reuseKey sdb.Key
+
+// one sqlittle.DB per low level handle, kept for as long as the handle lives: whatever the high level API remembers between
+// calls on a long-lived DB (parsed schemas, positions) is remembered here as well
+var (
+	hdb    *sqlittle.DB
+	hdbFor *sdb.Database
+)
+
+func wrapped(d *sdb.Database) *sqlittle.DB {
+	if hdb == nil || hdbFor != d {
+		hdb, hdbFor = sqlittle.VerifWrap(d), d
+	}
+	return hdb
 }
 
 func dbcmd(w []string) {
@@ -691,11 +729,11 @@ func second(l string) {
 		db2 = nil
 	case l == "nest" && db != nil:
 		// a nested call on the SAME handle from inside its own callback
-		_, err := sqlittle.VerifWrap(db).Columns("t")
+		_, err := wrapped(db).Columns("t")
 		fmt.Fprintf(out, "f2 nest %v\n", err == nil)
 	case strings.HasPrefix(l, "nest ") && db != nil:
 		// ... through any entry point: nest select|selectrowid|iselect|iselecteq|pkselect|columns
-		hd := sqlittle.VerifWrap(db)
+		hd := wrapped(db)
 		cb := func(sqlittle.Row) {}
 		var err error
 		func() {
@@ -735,7 +773,7 @@ func hold(w []string) {
 		fmt.Fprintln(out, "hold unknown")
 		return
 	}
-	hd := sqlittle.VerifWrap(db)
+	hd := wrapped(db)
 	mode, op := w[1], w[2]
 	n := 0
 	pause := func() {
